@@ -64,22 +64,28 @@ class Handshake:
         self.subprotocols: Optional[List[str]] = None
         self.upgrade: Optional[bytes] = None
         self.version: Optional[bytes] = None
+        self.decodable = True
         for name, value in headers:
             name = name.lower()
-            if name == b"connection":
-                self.connection_tokens = split_comma_header(value)
-            elif name == b"sec-websocket-extensions":
-                self.extensions = split_comma_header(value)
-            elif name == b"sec-websocket-key":
-                self.key = value
-            elif name == b"sec-websocket-protocol":
-                self.subprotocols = split_comma_header(value)
-            elif name == b"sec-websocket-version":
-                self.version = value
-            elif name == b"upgrade":
-                self.upgrade = value
+            try:
+                if name == b"connection":
+                    self.connection_tokens = split_comma_header(value)
+                elif name == b"sec-websocket-extensions":
+                    self.extensions = split_comma_header(value)
+                elif name == b"sec-websocket-key":
+                    self.key = value
+                elif name == b"sec-websocket-protocol":
+                    self.subprotocols = split_comma_header(value)
+                elif name == b"sec-websocket-version":
+                    self.version = value
+                elif name == b"upgrade":
+                    self.upgrade = value
+            except UnicodeDecodeError:
+                self.decodable = False  # Only ASCII makes a valid handshake
 
     def is_valid(self) -> bool:
+        if not self.decodable:
+            return False
         if self.http_version < "1.1":
             return False
         elif self.http_version == "1.1":
